@@ -1,0 +1,258 @@
+//go:build verif
+
+// Contracts checked by /verif/govc (comment-only file; compiled only with -tags verif).
+
+package scanner
+
+// ---------------------------------------------------------------- ghost state and predicates
+
+//@ ghostfield Scanner.open int follows finds
+//@ ghostfield Scanner.openBegin int follows finds
+//@ ghostfield Scanner.lastEnd int follows finds
+
+// Lexeme event kinds (values of LexemeEventType): Begin = even 0..8 and 12, End = Begin+1, Single = 10, 11.
+// Scanner.open is 0 when no lexeme is open, otherwise (Begin event type)+1 == matching End event type.
+//@ pred isBegin(t int) = t == 0 || t == 2 || t == 4 || t == 6 || t == 8 || t == 12
+//@ pred isEnd(t int) = t == 1 || t == 3 || t == 5 || t == 7 || t == 9 || t == 13
+//@ pred isSingle(t int) = t == 10 || t == 11
+//@ pred validEv(t int) = 0 <= t && t <= 13
+
+//@ pred StepLink(s *Scanner) = open(s.step) == s.open && s.curIndex - s.lastEnd >= back(s.step) && (strict(s.step) == 1 ==> s.openBegin < s.curIndex)
+//@ pred StackWF(s *Scanner) = s.step != nil && need(s.step) <= len(s.stepStack) && (kw(s.step) == 1 ==> s.lastEnd >= 0)
+//@     && (forall k :: 0 <= k && k < len(s.stepStack) ==> s.stepStack[k] != nil && need(s.stepStack[k]) <= k && open(s.stepStack[k]) == 0 && back(s.stepStack[k]) <= 1 && strict(s.stepStack[k]) == 0 && (kw(s.stepStack[k]) == 1 ==> s.lastEnd >= 0))
+
+//@ pred EventWF(s *Scanner) = len(s.stack) <= 1
+//@     && (len(s.stack) == 1 ==> isBegin(s.stack[0].type_))
+//@     && (forall i :: 0 <= i && i < len(s.finds) ==> validEv(s.finds[i].type_))
+//@     && (forall i :: 0 <= i && i < len(s.finds) && isEnd(s.finds[i].type_) ==> s.finds[i].position < s.dataSize
+//@            && (i > 0 ==> s.finds[i-1].type_ + 1 == s.finds[i].type_ && s.finds[i-1].position <= s.finds[i].position + 1)
+//@            && (i == 0 ==> len(s.stack) == 1 && s.stack[0].type_ + 1 == s.finds[0].type_ && s.stack[0].position <= s.finds[0].position + 1))
+//@     && (forall i :: 0 <= i && i < len(s.finds) && !isEnd(s.finds[i].type_) ==> (i > 0 ==> !isBegin(s.finds[i-1].type_)) && (i == 0 ==> len(s.stack) == 0))
+//@     && (forall i :: 0 <= i && i < len(s.finds) && isSingle(s.finds[i].type_) ==> s.finds[i].position < s.dataSize)
+//@     && (len(s.finds) > 0 && isBegin(s.finds[len(s.finds)-1].type_) ==> s.open == s.finds[len(s.finds)-1].type_ + 1 && s.openBegin == s.finds[len(s.finds)-1].position)
+//@     && (len(s.finds) > 0 && !isBegin(s.finds[len(s.finds)-1].type_) ==> s.open == 0)
+//@     && (len(s.finds) == 0 && len(s.stack) == 1 ==> s.open == s.stack[0].type_ + 1 && s.openBegin == s.stack[0].position)
+//@     && (len(s.finds) == 0 && len(s.stack) == 0 ==> s.open == 0)
+
+//@ pred DataWF(s *Scanner) = s != nil && s.file != nil && s.data == s.file.content && s.dataSize == len(s.data)
+//@     && (forall k :: 0 <= k && k < len(s.lastDirectiveParameters) ==> LexemeWF(s.lastDirectiveParameters[k]))
+
+//@ pred LexemeWF(l *Lexeme) = l != nil && l.file != nil && l.begin <= l.end && l.end < len(l.file.content)
+
+//@ pred ScannerInv(s *Scanner) = DataWF(s) && StackWF(s) && StepLink(s) && EventWF(s) && s.lastEnd < s.curIndex && 0 - 1 <= s.lastEnd && (s.open != 0 ==> s.openBegin <= s.curIndex && s.lastEnd < s.openBegin)
+
+// ---------------------------------------------------------------- stacks and event queue
+
+//@ func (*stepFuncStack).Push
+//@   tag C01 C14
+//@   requires stack != nil
+//@   modifies *stack
+//@   ensures seqapp(*stack, old(*stack), val)
+
+//@ func (*stepFuncStack).peek
+//@   tag C01 C14
+//@   pure
+//@   requires stack != nil && len(*stack) >= 1
+//@   ensures ret == (*stack)[len(*stack)-1]
+
+//@ func (*stepFuncStack).Pop
+//@   tag C01 C14
+//@   requires stack != nil && len(*stack) >= 1
+//@   modifies *stack
+//@   ensures ret == old((*stack)[len(*stack)-1]) && seqprefix(*stack, old(*stack), old(len(*stack)) - 1)
+
+//@ func (*eventStack).Push
+//@   tag C01 C14
+//@   requires stack != nil
+//@   modifies *stack
+//@   ensures seqapp(*stack, old(*stack), lex)
+
+//@ func (*eventStack).peek
+//@   tag C01 C14
+//@   pure
+//@   requires stack != nil && len(*stack) >= 1
+//@   ensures ret == (*stack)[len(*stack)-1]
+
+//@ func (*eventStack).Pop
+//@   tag C01 C14
+//@   requires stack != nil && len(*stack) >= 1
+//@   modifies *stack
+//@   ensures ret == old((*stack)[len(*stack)-1]) && seqprefix(*stack, old(*stack), old(len(*stack)) - 1)
+
+//@ func (LexemeEventType).IsBeginning
+//@   inline
+//@ func (LexemeEventType).IsEnding
+//@   inline
+//@ func (LexemeEventType).IsSingle
+//@   inline
+//@ func (LexemeEventType).ToLexemeType
+//@   inline
+//@ func NewLexeme
+//@   inline
+//@ func (Lexeme).Type
+//@   inline
+
+// typestate contract of the event emitters (DESIGN 3.1): Begin only when nothing is open and after the last end;
+// End only for the open kind, not before its beginning, and inside the input.
+//@ func (*Scanner).foundAt
+//@   tag C01 C14
+//@   requires s != nil
+//@   requires [C14] isBegin(t) ==> s.open == 0 && i > s.lastEnd && i <= s.dataSize
+//@   requires [C14] isEnd(t) ==> s.open == t && s.openBegin <= i + 1 && i < s.dataSize
+//@   requires [C14] isSingle(t) ==> s.open == 0 && i > s.lastEnd && i < s.dataSize
+//@   requires [C14] validEv(t)
+//@   modifies s.finds, s.open, s.openBegin, s.lastEnd
+//@   ensures len(s.finds) == old(len(s.finds)) + 1 && s.finds[len(s.finds)-1].type_ == t && s.finds[len(s.finds)-1].position == i
+//@   ensures forall k :: 0 <= k && k < old(len(s.finds)) ==> s.finds[k] == old(s.finds[k])
+//@   ghostensures isBegin(t) ==> s.open == t + 1 && s.openBegin == i && s.lastEnd == old(s.lastEnd)
+//@   ghostensures !isBegin(t) ==> s.open == 0 && s.lastEnd == i
+
+//@ func (*Scanner).found
+//@   tag C01 C14
+//@   requires s != nil
+//@   requires [C14] isBegin(t) ==> s.open == 0 && s.curIndex > s.lastEnd && s.curIndex <= s.dataSize
+//@   requires [C14] isEnd(t) ==> s.open == t && s.openBegin <= s.curIndex + 1 && s.curIndex < s.dataSize
+//@   requires [C14] isSingle(t) ==> s.open == 0 && s.curIndex > s.lastEnd && s.curIndex < s.dataSize
+//@   requires [C14] validEv(t)
+//@   modifies s.finds, s.open, s.openBegin, s.lastEnd
+//@   ensures len(s.finds) == old(len(s.finds)) + 1 && s.finds[len(s.finds)-1].type_ == t && s.finds[len(s.finds)-1].position == s.curIndex
+//@   ensures forall k :: 0 <= k && k < old(len(s.finds)) ==> s.finds[k] == old(s.finds[k])
+//@   ensures isBegin(t) ==> s.open == t + 1 && s.openBegin == s.curIndex && s.lastEnd == old(s.lastEnd)
+//@   ensures !isBegin(t) ==> s.open == 0 && s.lastEnd == s.curIndex
+
+//@ func (*Scanner).shiftFound
+//@   tag C01 C14
+//@   requires s != nil && len(s.finds) >= 1
+//@   modifies s.finds
+//@   ensures ret == old(s.finds[0]) && seqtail(s.finds, old(s.finds))
+
+//@ func (*Scanner).startComment
+//@   tag C01 C05 C14
+//@   requires s != nil
+//@   modifies s.step, s.stepStack
+//@   ensures ret == nil && s.step == stateCommentStarted && seqapp(s.stepStack, old(s.stepStack), old(s.step))
+//@ table need(stepFunc) int : default=0
+//@ table need(stepFunc) int : stateAnnotation=1, stateAnnotationSign2=1, stateAnnotationTextStart=1, stateBodyBody=1, stateCommentBlock=1, stateCommentDouble=1
+//@ table need(stepFunc) int : stateCommentOnceClosed=1, stateCommentStarted=1, stateCommentTwiceClosed=1, stateMultilineAnnotation=1, stateMultilineAnnotationTextStart=1, stateParameterInQuoted=1
+//@ table need(stepFunc) int : stateParameterInQuotedSlash=1, stateParameterOrAnnotation=1, stateParameterOrAnnotationAfterFirstSpace=1, stateParameterStart=1, stateParameterWoQuoted=1, stateRequestBody=1
+//@ table need(stepFunc) int : stateResponseBody=1, stateSingleComment=1, stateTypeBody=1
+
+//@ table open(stepFunc) int : default=0
+//@ table open(stepFunc) int : stateAnnotation=5, stateB=1, stateBa=1, stateBas=1, stateBase=1, stateBaseU=1
+//@ table open(stepFunc) int : stateBaseUr=1, stateBo=1, stateBod=1, stateD=1, stateDE=1, stateDEL=1
+//@ table open(stepFunc) int : stateDELE=1, stateDELET=1, stateDe=1, stateDes=1, stateDesc=1, stateDescr=1
+//@ table open(stepFunc) int : stateDescri=1, stateDescrip=1, stateDescript=1, stateDescripti=1, stateDescriptio=1, stateDescriptionText=9
+//@ table open(stepFunc) int : stateDescriptionTextBegin=9, stateDescriptionTextBracketsInner=9, stateDescriptionTextBracketsInnerNewLine=9, stateDescriptionTextNewline=9, stateE=1, stateEN=1
+//@ table open(stepFunc) int : stateENU=1, stateEnumBodyClose=13, stateG=1, stateGE=1, stateH=1, stateHe=1
+//@ table open(stepFunc) int : stateHea=1, stateHead=1, stateHeade=1, stateHeader=1, stateI=1, stateIN=1
+//@ table open(stepFunc) int : stateINC=1, stateINCL=1, stateINCLU=1, stateINCLUD=1, stateINF=1, stateJ=1
+//@ table open(stepFunc) int : stateJS=1, stateJSI=1, stateJSIG=1, stateJSIGH=1, stateM=1, stateMA=1
+//@ table open(stepFunc) int : stateMAC=1, stateMACR=1, stateMe=1, stateMet=1, stateMeth=1, stateMetho=1
+//@ table open(stepFunc) int : stateMultilineAnnotation=5, stateP=1, statePA=1, statePAS=1, statePAST=1, statePAT=1
+//@ table open(stepFunc) int : statePATC=1, statePO=1, statePOS=1, statePU=1, statePa=1, statePar=1
+//@ table open(stepFunc) int : statePara=1, stateParam=1, stateParameterInQuoted=3, stateParameterInQuotedSlash=3, stateParameterWoQuoted=3, statePat=1
+//@ table open(stepFunc) int : statePr=1, statePro=1, stateProt=1, stateProto=1, stateProtoc=1, stateProtoco=1
+//@ table open(stepFunc) int : stateQ=1, stateQu=1, stateQue=1, stateQuer=1, stateR=1, stateRe=1
+//@ table open(stepFunc) int : stateRegexBody=9, stateRegexBodyAfterSlash=9, stateRegexFirstChar=9, stateReq=1, stateRequ=1, stateReque=1
+//@ table open(stepFunc) int : stateReques=1, stateRes=1, stateResponseKeywordSecond=1, stateResponseKeywordStarted=1, stateResu=1, stateResul=1
+//@ table open(stepFunc) int : stateS=1, stateSchemaClosed=7, stateSe=1, stateSer=1, stateServ=1, stateServe=1
+//@ table open(stepFunc) int : stateT=1, stateTA=1, stateTa=1, stateTag=1, stateTi=1, stateTit=1
+//@ table open(stepFunc) int : stateTitl=1, stateTy=1, stateTyp=1, stateU=1, stateUR=1, stateV=1
+//@ table open(stepFunc) int : stateVe=1, stateVer=1, stateVers=1, stateVersi=1, stateVersio=1
+
+// ---------------------------------------------------------------- error constructors (C02: index inside the file)
+
+//@ func (Scanner).japiError
+//@   tag C01 C02
+//@   pure
+//@   requires s.file != nil && i <= len(s.file.content)
+//@   ensures ret != nil && ret.file == s.file && ret.index == i && len(ret.includeTrace) == 0
+
+//@ func (Scanner).japiErrorBasic
+//@   tag C01 C02
+//@   pure
+//@   requires s.file != nil && s.curIndex <= len(s.file.content)
+//@   ensures ret != nil && ret.file == s.file && ret.index == s.curIndex && len(ret.includeTrace) == 0
+
+//@ func (Scanner).japiErrorUnexpectedChar
+//@   tag C01 C02
+//@   pure
+//@   requires s.file != nil && s.curIndex <= len(s.file.content) && s.dataSize == len(s.data)
+//@   ensures ret != nil && ret.file == s.file && ret.index == s.curIndex && len(ret.includeTrace) == 0
+
+//@ func stateIncludeError
+//@   inline
+//@ func stateInfoError
+//@   inline
+//@ func stateTagsError
+//@   inline
+
+// ---------------------------------------------------------------- the step-function contract (all 160 states)
+
+//@ functype stepFunc(s, c)
+//@   tag C01 C14 C02
+//@   requires ScannerInv(s) && s.curIndex <= s.dataSize
+//@   requires s.curIndex < s.dataSize ==> c == s.data[s.curIndex] && c != 0
+//@   requires s.curIndex == s.dataSize ==> c == 0
+//@   requires need(self) <= len(s.stepStack) && open(self) == s.open && (kw(self) == 1 ==> s.lastEnd >= 0)
+//@   requires s.curIndex - s.lastEnd >= back(self) && (strict(self) == 1 ==> s.openBegin < s.curIndex)
+//@   requires s.step == self || alias(s.step) == fnid(self)
+//@   modifies s.step, s.stepStack, s.finds, s.curIndex, s.open, s.openBegin, s.lastEnd
+//@   ensures ret == nil ==> DataWF(s)
+//@   ensures ret == nil ==> StackWF(s)
+//@   ensures ret == nil && s.curIndex < s.dataSize ==> open(s.step) == s.open && s.curIndex + 1 - s.lastEnd >= back(s.step) && (strict(s.step) == 1 ==> s.openBegin <= s.curIndex)
+//@   ensures ret == nil ==> EventWF(s)
+//@   ensures ret == nil ==> s.lastEnd <= s.curIndex && 0 - 1 <= s.lastEnd && s.curIndex <= s.dataSize && (s.open != 0 ==> s.openBegin <= s.curIndex + 1 && s.lastEnd < s.openBegin)
+//@   ensures [C02] ret != nil ==> ret.file == s.file && ret.index <= s.dataSize
+
+//@ func (*Scanner).endCommentLine
+//@   inline
+//@ func caseWhitespace
+//@   inline
+//@ func isWhitespace
+//@   inline
+//@ func caseNewLine
+//@   inline
+//@ func IsNewLine
+//@   inline
+//@ func otherByte
+//@   inline
+
+// ---------------------------------------------------------------- schema / enum bodies (boundary with the schema library)
+
+//@ func (*Scanner).readSchemaWithJsc
+//@   tag C01 C14 C02
+//@   requires DataWF(s) && s.curIndex <= s.dataSize
+//@   modifies nothing
+//@   ensures ret1 == nil ==> 1 <= ret0 && s.curIndex + ret0 <= s.dataSize
+//@   ensures ret1 != nil ==> ret1.file == s.file && ret1.index <= s.dataSize
+
+//@ func (*Scanner).readEnumWithJsc
+//@   tag C01 C14 C02
+//@   requires DataWF(s) && s.curIndex <= s.dataSize
+//@   modifies nothing
+//@   ensures ret1 == nil ==> 1 <= ret0 && s.curIndex + ret0 <= s.dataSize
+//@   ensures ret1 != nil ==> ret1.file == s.file && ret1.index <= s.dataSize
+
+//@ func (*Scanner).scanEnumBody
+//@   inline
+
+// kw(f) == 1: state f only runs after at least one lexeme has ended (lastEnd >= 0)
+//@ table kw(stepFunc) int : default=0
+//@ table kw(stepFunc) int : stateAnnotation=1, stateAnnotationSign2=1, stateAnnotationTextStart=1, stateBodyBody=1, stateBodyBodyOrKeyword=1, stateBodyEnded=1
+//@ table kw(stepFunc) int : stateContextClosed=1, stateContextOpenedOnNewline=1, stateDescriptionText=1, stateDescriptionTextBegin=1, stateDescriptionTextBeginStarter=1, stateDescriptionTextBracketsInner=1
+//@ table kw(stepFunc) int : stateDescriptionTextBracketsInnerNewLine=1, stateDescriptionTextNewline=1, stateEnumBody=1, stateEnumBodyClose=1, stateEnumBodyEnded=1, stateHeaderBody=1
+//@ table kw(stepFunc) int : stateJSchema=1, stateMultilineAnnotation=1, stateMultilineAnnotationTextStart=1, stateParameterInQuoted=1, stateParameterInQuotedSlash=1, stateParameterOrAnnotation=1
+//@ table kw(stepFunc) int : stateParameterOrAnnotationAfterFirstSpace=1, stateParameterStart=1, stateParameterWoQuoted=1, stateParamsBody=1, statePathBody=1, stateQueryBodyOrKeyword=1
+//@ table kw(stepFunc) int : stateRegex=1, stateRegexBody=1, stateRegexBodyAfterSlash=1, stateRegexFirstChar=1, stateRequestBody=1, stateRequestBodyOrKeyword=1
+//@ table kw(stepFunc) int : stateResponseBody=1, stateResponseBodyOrKeyword=1, stateResultBody=1, stateSchemaClosed=1, stateTypeBody=1, stateTypeBodyOrKeyword=1
+
+// back(f): bytes guaranteed between the last lexeme end and the byte f is run on (stateAnnotationSign2 rewinds by two)
+//@ table back(stepFunc) int : default=1, stateAnnotationSign2=2
+// strict(f) == 1: f runs only on bytes strictly after the beginning of the open lexeme
+//@ table strict(stepFunc) int : default=0, stateMultilineAnnotation=1
+
+// alias(f) = g: f hands its byte to g by a direct call without making g the current step
+//@ table alias(stepFunc) int : default=0, stateRoot=stateExpectKeyword, stateCommentStarted=stateSingleComment, stateCommentDouble=stateSingleComment
+//@ table alias(stepFunc) int : stateHeaderBody=stateJSchema, stateParamsBody=stateJSchema, statePathBody=stateJSchema, stateQueryBodyOrKeyword=stateJSchema, stateResultBody=stateJSchema
+//@ table alias(stepFunc) int : stateRequestBody=stateExpectKeyword, stateResponseBody=stateExpectKeyword
